@@ -22,7 +22,7 @@ use std::thread::yield_now;
 #[cfg(feature = "multiqueue2_verif")]
 use crate::verif_hooks::yield_now;
 
-use crate::countedindex::{past, rm_tag};
+use crate::countedindex::{is_tagged, past, rm_tag};
 #[cfg(not(feature = "multiqueue2_verif"))]
 extern crate parking_lot;
 #[cfg(feature = "multiqueue2_verif")]
@@ -39,7 +39,14 @@ pub fn load_tagless(val: &AtomicUsize) -> usize {
 
 #[inline(always)]
 pub fn check(seq: usize, at: &AtomicUsize, wc: &AtomicUsize) -> bool {
-    let cur_count = load_tagless(at);
+    let raw = at.load(Relaxed);
+    if is_tagged(raw) {
+        // The slot has never been written: no count is published there yet, so the only reason
+        // to stop waiting is that every writer is gone. (Stripping the flag bit used to turn the
+        // marker into a huge count that looked "past" any small seq.)
+        return wc.load(Relaxed) == 0;
+    }
+    let cur_count = rm_tag(raw);
     wc.load(Relaxed) == 0 || seq == cur_count || past(seq, cur_count).1
 
     // if wc.load(Relaxed) == 0 || seq == cur_count || past(seq, cur_count).1 {
